@@ -1,3 +1,3 @@
 #!/bin/sh
 # replays this counterexample against the real build
-cd /tmp/dbg_x && VERIF_SCRIPT=/verif/replays/C06/VHarnessP2PKTagsTotal_ceb6366e_0/script.json VERIF_RAW_SALT=0 GOFLAGS=-mod=mod GOPROXY=off go test -vet=off -count=1 -overlay /verif/replays/C06/VHarnessP2PKTagsTotal_ceb6366e_0/overlay.json -run ^TestVerifReplay_VHarnessP2PKTagsTotal$ -v ./cashu/nuts/nut11
+cd /tmp/seedrepo_C06c && VERIF_SCRIPT=/verif/replays/C06/VHarnessP2PKTagsTotal_ceb6366e_0/script.json VERIF_RAW_SALT=0 GOFLAGS=-mod=mod GOPROXY=off go test -vet=off -count=1 -overlay /verif/replays/C06/VHarnessP2PKTagsTotal_ceb6366e_0/overlay.json -run ^TestVerifReplay_VHarnessP2PKTagsTotal$ -v ./cashu/nuts/nut11
